@@ -1,31 +1,64 @@
 from vtlib.core import Obl
 
-FILES = ["mdtraj/geometry/dssp.py", "mdtraj/geometry/hbond.py"]
+FILES = ["mdtraj/geometry/dssp.py", "mdtraj/geometry/hbond.py", "mdtraj/geometry/src/dssp.cpp"]
 META = {
     "files": FILES,
-    "explanation": "PYTHON LAYER ONLY. E1 CrossHair on compute_dssp with the compiled routine replaced by a recorder that answers with symbolic codes: topology symbolic (which backbone "
-                   "atoms two of four residues have, which residue is proline, where the chain break is, atoms listed in different orders), simplified symbolic. Decided: one code per "
-                   "residue per frame; 'NA' exactly for residues lacking any of N, CA, C, O; otherwise the routine's code or its documented three-letter image; the routine receives each "
-                   "residue's own N/C/O/CA indices (-1 when missing), proline flags and chain indices.",
-    "trusted_base": ["CrossHair + z3", "vtlib/xhfix.py"],
-    "assumptions": ["4 residues x 2 frames; residues 0 and 2 complete"],
-    "out": ["THE DSSP RULES THEMSELVES (dssp.cpp: n-turns, minimal helices and their priority, bridges, ladders, bulges, bends): std::deque/map/vector code whose container shapes depend on the "
-            "symbolic hydrogen-bond pattern (3^(n^2) forks) is beyond the IR interpreter; a change inside dssp.cpp is NOT detected by this check",
-            "the hydrogen-bond energies feeding the rules are C14's subject (Kabsch-Sander kernel)"],
+    "explanation": "Two layers. (1) THE RULES (dssp.cpp), engine E5 cxxsym: the functions are lowered from clang's JSON AST of the current source to Python, statement by statement "
+                   "(std::vector / deque / map, iterators and sort by small container classes with C++ value semantics) and executed on a SYMBOLIC hydrogen-bond table: 2n integers "
+                   "constrained only by kabsch_sander's output contract. Branches on symbolic conditions fork (one incremental z3 solver, a push level per decision); the leaf predicates "
+                   "(_test_bond, _residue_test_bridge) are explored completely once and enter as one ite-term. Per path the solver enumerates the n-turn / bridge-type assignments BY THE "
+                   "PAPER'S DEFINITIONS that are consistent with the path, and the codes written must equal those of reference rules typed in from Kabsch & Sander 1983 / DSSP 2.2.0 "
+                   "(ref_beta, ref_helix). Separately: the bridge predicate as a term == the paper's definition for every residue pair; bulge-linked ladders for every gap combination "
+                   "(n = 15, three seed pairs free, all other pairs assumed unbridged); the 70-degree bend on symbolic real coordinates (nlsat); the driver (skip mask from symbolic "
+                   "index arrays, per-frame table and coordinates, letters). Counterexamples are H-bond tables replayed on a native build of the current dssp.cpp through a shim. "
+                   "(2) THE PYTHON LAYER, E1 CrossHair on compute_dssp with the compiled routine replaced by a recorder answering symbolic codes: shape, 'NA' overlay exactly for residues "
+                   "lacking N, CA, C or O, the simplified image, per-residue atom indices / proline flags / chain indices handed over.",
+    "trusted_base": ["clang 14 -ast-dump=json", "vtlib/cxxsym.py (lowering + container models + forking executor)", "z3", "the reference rules in harness/c15_rules.py (typed from the paper / DSSP 2.2.0)",
+                     "kabsch_sander's output contract (values in {-1} U [0,n), not the donor itself nor its predecessor, distinct slots, second only after first; C14 decides the store step)",
+                     "std::sort modelled as a stable sort (libstdc++ uses insertion sort below 16 elements)", "CrossHair + z3 for the Python layer"],
+    "assumptions": ["rules: n <= 8 residues with every pair free (9 in the thorough tier), n = 15 with three free pairs for bulges; chain ids and skip masks from catalogues; bend decisions free booleans",
+                    "bend angle: orientation of the C-alpha triple fixed (first vector along x, second in the xy-plane), positions and lengths free in [-10, 10] nm; within 1e-6 of the threshold excluded",
+                    "Python layer: 4 residues x 2 frames"],
+    "out": ["the Cython glue _geometry.pyx (array conversion, char buffer) — installed binary, cannot be rebuilt here", "proteins longer than the bounds (the rules are local: windows of <= 6 residues per pattern, but ladder "
+            "merging over more than two ladders at once is only reached in the n <= 9 exhaustive runs)", "float32 rounding in the bend angle", "the hydrogen-bond energies feeding the rules are C14's subject"],
 }
 
 
 def obligations():
     enc = ["mdtraj.geometry.dssp.compute_dssp", "mdtraj.geometry.hbond._prep_kabsch_sander_arrays"]
-    return [Obl("C15.python.codes", "xh", "harness.c15_py", "dssp_codes", enc, "4 residues, 2 frames; which backbone atom residues 1 and 3 lack (or none), simplified, every code at every position",
-                "shape; 'NA' overlay exactly for incomplete residues; the routine's code or its simplified image", 600),
-            Obl("C15.python.arguments", "xh", "harness.c15_py", "dssp_arguments", enc, "same topologies x proline position x chain break",
-                "per-residue N/C/O/CA indices (-1 when missing) found by NAME in any atom order, proline flags, chain indices, float32 coordinates", 600)]
+    o = [Obl("C15.python.codes", "xh", "harness.c15_py", "dssp_codes", enc, "4 residues, 2 frames; which backbone atom residues 1 and 3 lack (or none), simplified, every code at every position",
+             "shape; 'NA' overlay exactly for incomplete residues; the routine's code or its simplified image", 600),
+         Obl("C15.python.arguments", "xh", "harness.c15_py", "dssp_arguments", enc, "same topologies x proline position x chain break",
+             "per-residue N/C/O/CA indices (-1 when missing) found by NAME in any atom order, proline flags, chain indices, float32 coordinates", 600)]
+    H = "harness.c15_rules"
+    D = "dssp.cpp:"
+    for ch in ("one", "two"):
+        o.append(Obl(f"C15.rules.bridge.{ch}", "py", H, "bridge_test", [D + "_residue_test_bridge", D + "_test_bond"], f"7 residues, chains '{ch}', every ordered residue pair, symbolic H-bond table (14 integers)",
+                     "the bridge predicate as one term equals Kabsch & Sander's definition (parallel before antiparallel, both triplets inside one chain)", 300, params={"n": 7, "chains": ch}))
+    for ch, sk in (("one", "none"), ("tail", "none"), ("one", "s2"), ("two", "mid")):
+        o.append(Obl(f"C15.rules.beta.n8.{ch}.{sk}", "py", H, "beta_sheets", [D + "calculate_beta_sheets", D + "Bridge", D + "_residue_test_bridge"], f"8 residues, chains '{ch}', skip mask '{sk}', every pair free (up to 3^6 type matrices)",
+                     "B / E codes equal the reference ladder algorithm on every path", 900, params={"n": 8, "chains": ch, "skips": sk}))
+    o.append(Obl("C15.rules.beta.n9", "py", H, "beta_sheets", [D + "calculate_beta_sheets"], "9 residues, one chain, every pair free (10 pairs)", "same", 6000, params={"n": 9, "chains": "one", "skips": "none", "max_paths": 300000}, tiers=("thorough",)))
+    for kind in ("parallel", "anti"):
+        o.append(Obl(f"C15.rules.bulges.{kind}", "py", H, "beta_bulges", [D + "calculate_beta_sheets (ladder extension, bulge merging)"], "15 residues; a two-bridge ladder and a third bridge at every gap combination (1..6 x 1..6); only these three pairs may be bridged",
+                     "linked exactly when one strand has at most one and the other at most four extra residues, in the right direction; merged extents coded E", 1500, params={"n": 15, "kind": kind}))
+    o.append(Obl("C15.rules.bulges.parallel.break", "py", H, "beta_bulges", [D + "calculate_beta_sheets (chain continuity of merged ladders)"], "same with a chain break after residue 4", "ladders are not linked across a chain break", 1500,
+                 params={"n": 15, "kind": "parallel", "chains": "break5"}, tiers=("thorough",)))
+    for ch, sk, init in (("one", "none", "loop"), ("one", "none", "strand"), ("one", "none", "bridge"), ("one", "none", "allE"), ("two", "none", "loop"), ("one", "mid", "loop"), ("tail", "s2", "strand")):
+        o.append(Obl(f"C15.rules.helices.n7.{ch}.{sk}.{init}", "py", H, "helices", [D + "calculate_alpha_helices", D + "calculate_bends", D + "_test_bond"], f"7 residues, chains '{ch}', skip '{sk}', strand codes before: '{init}'; bends free booleans",
+                     "H / G / I / T / S equal the reference (minimal helices from consecutive n-turns, H first, G only on free residues, I over H, turns, bends; bends asked for exactly the right C-alpha triples)", 900,
+                     params={"n": 7, "chains": ch, "skips": sk, "init": init}))
+    o.append(Obl("C15.rules.helices.n8", "py", H, "helices", [D + "calculate_alpha_helices"], "8 residues, one chain (4096 turn patterns)", "same", 1800, params={"n": 8, "chains": "one", "skips": "none", "init": "loop", "max_paths": 200000}))
+    o.append(Obl("C15.rules.helices.n9", "py", H, "helices", [D + "calculate_alpha_helices"], "9 residues, one chain", "same", 12000, params={"n": 9, "chains": "one", "skips": "none", "init": "loop", "max_paths": 2000000}, tiers=("thorough",)))
+    o.append(Obl("C15.rules.bend_angle", "py", H, "bend_angle", [D + "calculate_bends", "vectorize.h:fvec4 (modelled)"], "5 residues, symbolic real C-alpha coordinates (orientation fixed)", "bend <=> angle between CA(i)-CA(i-2) and CA(i+2)-CA(i) > 70 degrees", 600, params={"n": 5}))
+    o.append(Obl("C15.rules.driver", "py", H, "driver", [D + "dssp"], "3 residues x 2 frames, symbolic N/C/O/CA index arrays", "skip mask <=> an index is -1; one kabsch_sander call per frame on that frame's coordinates and a fresh table; letters at [frame * n_residues + residue]", 600,
+                 params={"n_res": 3, "n_frames": 2}))
+    return o
 
 
 MANIFEST_INFO = {
-    "engine": "xh",
-    "technique": "CrossHair symbolic execution of compute_dssp's Python layer with the compiled DSSP routine replaced by a recorder returning symbolic codes",
-    "text": "PARTIAL (Python layer only): shape, 'NA' overlay for residues without a full backbone, the simplified three-letter image and the per-residue atom indices / proline flags / chain ids handed to the compiled routine are decided for every small topology in the bound. The DSSP rules in dssp.cpp are NOT covered.",
-    "note": "dssp.cpp is outside the reach of the IR interpreter (symbolic container shapes); changes there are not detected. Listed as claimed only for the Python layer.",
+    "engine": "cxxsym+xh",
+    "technique": "symbolic execution of dssp.cpp lowered from clang's JSON AST (forking executor over a symbolic hydrogen-bond table, leaf predicates summarised as ite-terms, z3 incremental) against reference rules from the paper, native replay through a shim; CrossHair for compute_dssp's Python layer",
+    "text": "The rule code of dssp.cpp (bridge predicate, ladders and bulge merging, minimal helices with H/G/I priorities, turns, bends, skip mask, letters, per-frame driver) agrees with the published rules on every hydrogen-bond table kabsch_sander can produce for up to 8 residues (9 thorough), on every bulge gap combination for three free bridges in 15 residues; the Python layer's shape, 'NA' overlay, simplified image and argument preparation are decided for small topologies.",
+    "note": "Bounds are small proteins; the rules are local (patterns span <= 6 residues) but this locality is an argument, not something the solver showed. The Cython glue and float32 effects in the bend angle are outside.",
 }
